@@ -98,7 +98,7 @@ func c01Apply(w *world.World, e c01Event) c01Step {
 		}
 		op := map[string]string{"userinfo": "SetUserinfoWithUserID", "key": "GetResponseSigningKey", "entity": "GetEntityIDByAppID"}[e.A]
 		kind := world.FaultError
-		if e.A == "key" && e.B != "" {
+		if e.B != "" {
 			kind = e.B
 		}
 		w.Store.FaultAt(op, occ[op]+1, kind)
@@ -135,6 +135,10 @@ func c01Apply(w *world.World, e c01Event) c01Step {
 		case "upper-case":
 			req = world.NewRequest("GET", "", path, url.Values{"id": {strings.ToUpper(target)}}, "", nil)
 			named = []string{strings.ToUpper(target)}
+		case "urn-uuid", "braces", "dashless":
+			v := map[string]string{"urn-uuid": "urn:uuid:" + target, "braces": "{" + target + "}", "dashless": strings.ReplaceAll(target, "-", "")}[e.A]
+			req = world.NewRequest("GET", "", path, url.Values{"id": {v}}, "", nil)
+			named = []string{v}
 		case "unknown":
 			req = world.NewRequest("GET", "", path, url.Values{"id": {"no-such-session"}}, "", nil)
 			named = []string{"no-such-session"}
@@ -259,7 +263,7 @@ func c01Menu(n, cap int, armed bool) []c01Event {
 	}
 	for k := 0; k < n; k++ {
 		out = append(out, c01Event{Kind: "complete", K: k})
-		for _, pl := range []string{"get-query", "post-body", "body-and-query-differ", "two-values", "header-only", "padded", "upper-case"} {
+		for _, pl := range []string{"get-query", "post-body", "body-and-query-differ", "two-values", "header-only", "padded", "upper-case", "urn-uuid", "braces", "dashless"} {
 			out = append(out, c01Event{Kind: "callback", A: pl, K: k})
 		}
 	}
@@ -268,7 +272,7 @@ func c01Menu(n, cap int, armed bool) []c01Event {
 	}
 	if !armed {
 		out = append(out, c01Event{Kind: "arm", A: "userinfo"}, c01Event{Kind: "arm", A: "key"}, c01Event{Kind: "arm", A: "key", B: world.FaultNoCert}, c01Event{Kind: "arm", A: "entity"},
-			c01Event{Kind: "arm", A: "key", B: world.FaultGarbageCert}, c01Event{Kind: "arm", A: "key", B: world.FaultZeroKey}, c01Event{Kind: "arm", A: "key", B: world.FaultMismatch})
+			c01Event{Kind: "arm", A: "userinfo", B: world.FaultPartial}, c01Event{Kind: "arm", A: "key", B: world.FaultGarbageCert}, c01Event{Kind: "arm", A: "key", B: world.FaultZeroKey}, c01Event{Kind: "arm", A: "key", B: world.FaultMismatch})
 	}
 	return out
 }
@@ -332,6 +336,13 @@ func c01Sched(name string, bound int, deadline time.Time, only []int) c01SchedRe
 		cb := func(id string) sched.Body {
 			req := world.NewRequest("GET", "", w.Cfg.CallbackPath(), url.Values{"id": {id}}, "", nil)
 			return func() any { return w.Do(req) }
+		}
+		if strings.HasPrefix(name, "callback(pending i, same user") {
+			// i is pending but already knows its user (e.g. second factor outstanding); j of the same user and application is done
+			w.Store.Request(a.ID).UserID = "u-alice"
+			b := w.Store.Inject(world.AuthReq{AppID: "app-a", ACS: "https://sp-a.example/acs/post", Binding: msg.BindPost, RequestID: "_b", RelayState: "rb"})
+			w.Store.Complete(b.ID, "u-alice")
+			return []sched.Body{cb(a.ID), cb(b.ID)}
 		}
 		if !three {
 			return []sched.Body{cb(a.ID), func() any { w.Store.Complete(a.ID, "u-alice"); return nil }}
@@ -405,7 +416,8 @@ type c01ReplayT struct {
 	Schedule []int      `json:"schedule,omitempty"`
 }
 
-var c01SchedScenarios = []string{"callback(i) || complete(i)", "callback(i) || complete(i) [redirect]", "callback(i) || callback(j) || complete(j)"}
+var c01SchedScenarios = []string{"callback(i) || complete(i)", "callback(i) || complete(i) [redirect]", "callback(i) || callback(j) || complete(j)",
+	"callback(pending i, same user and application) || callback(done j)"}
 
 func init() { Registry["C01"] = runC01 }
 
@@ -423,7 +435,7 @@ func runC01(ctx Ctx) int {
 		}
 	}
 	run := ev.NewRun("C01")
-	run.Rule = "E2: breadth-first search over event histories on the real provider: events = SSO acceptance (POST/Redirect), injected pending records (binding POST/Redirect/none/Artifact x consumer URL registered/empty, and records reusing the first session's SP-chosen request ID and RelayState), login completion of any session, callback of any session in 7 id placements (GET query, POST body, body and query naming different sessions, two id values, id in a header only, padded, upper-cased) plus unknown / empty / absent id, and arming a one-shot storage failure (user info, entity lookup, signing key error / key without certificate / garbage certificate / zero key / certificate of another key); states are deduplicated by a canonical key (sessions in creation order: binding, consumer-URL-empty, done, user; armed fault) and every transition, including self-loops, is executed by replaying the shortest history on a fresh provider and judged; every state is additionally extended by callback(k) ; callback(any) so that state kept inside the IdP between requests shows. E3: callback(i) || complete(i) with unbounded preemptions (both bindings) and callback(i) || callback(j) || complete(j) at preemption bound 2 (quick) / 3 (thorough) under the controlled scheduler"
+	run.Rule = "E2: breadth-first search over event histories on the real provider: events = SSO acceptance (POST/Redirect), injected pending records (binding POST/Redirect/none/Artifact x consumer URL registered/empty, and records reusing the first session's SP-chosen request ID and RelayState), login completion of any session, callback of any session in 10 id placements / spellings (GET query, POST body, body and query naming different sessions, two id values, id in a header only, padded, upper-cased, urn:uuid: prefix, braces, dash-less; stored ids are UUID-shaped) plus unknown / empty / absent id, and arming a one-shot storage failure (user info, entity lookup, signing key error / key without certificate / garbage certificate / zero key / certificate of another key); states are deduplicated by a canonical key (sessions in creation order: binding, consumer-URL-empty, done, user; armed fault) and every transition, including self-loops, is executed by replaying the shortest history on a fresh provider and judged; every state is additionally extended by callback(k) ; callback(any) so that state kept inside the IdP between requests shows. E3: callback(i) || complete(i) with unbounded preemptions (both bindings) and callback(i) || callback(j) || complete(j) at preemption bound 2 (quick) / 3 (thorough) under the controlled scheduler"
 	run.Assume = []string{"<= 2 sessions and depth 5 (quick), <= 3 sessions and depth 6 (thorough); the canonical key keeps, of request ID and RelayState, only whether a session reuses the first session's values"}
 	if ctx.Replay != "" {
 		var rp c01ReplayT
@@ -565,6 +577,9 @@ func runC01(ctx Ctx) int {
 		bound := -1
 		if i == 2 {
 			bound = bound3
+		}
+		if i == 3 {
+			bound = 2
 		}
 		secs := 120
 		if run.Tier == "thorough" {
